@@ -649,8 +649,10 @@ impl Sim {
         match op {
             Op::Nop => true,
             Op::Spawn(s, _) => self.alive(s).is_none(),
-            Op::Despawn(s) => self.alive(s).is_some(),
-            Op::Unmark(s) => self.marked(s),
+            // Entities that a live reference (R or ChildOf) points at are never despawned or
+            // unmarked through the alphabet: dangling references are outside every property.
+            Op::Despawn(s) => self.alive(s).is_some() && !self.referenced(s),
+            Op::Unmark(s) => self.marked(s) && !self.referenced(s),
             Op::Mark(s) => self.alive(s).is_some() && !self.marked(s),
             Op::Ins(s, t) => self.alive(s).is_some_and(|e| !self.has_tag(e, t)),
             Op::Rm(s, t) | Op::Mut(s, t) => self.alive(s).is_some_and(|e| self.has_tag(e, t)),
@@ -666,7 +668,7 @@ impl Sim {
             Op::SetParent(s, p) => {
                 s != p
                     && self.alive(s).is_some()
-                    && self.alive(p).is_some()
+                    && self.marked(p)
                     && self.parent_of(s) != self.alive(p)
                     && !self.is_ancestor(s, p)
             }
@@ -679,6 +681,21 @@ impl Sim {
                     && self.is_authorized(c as usize)
             }
         }
+    }
+
+    /// Does any live entity hold an `R` or `ChildOf` pointing at `slot`?
+    fn referenced(&self, slot: u8) -> bool {
+        let Some(target) = self.alive(slot) else {
+            return false;
+        };
+        (0..self.ents.len() as u8).any(|s| {
+            s != slot
+                && self.alive(s).is_some_and(|e| {
+                    let r = self.server.world().entity(e);
+                    r.get::<R>().is_some_and(|r| r.0 == target)
+                        || r.get::<ChildOf>().is_some_and(|c| c.parent() == target)
+                })
+        })
     }
 
     fn parent_of(&self, slot: u8) -> Option<Entity> {
